@@ -1,5 +1,5 @@
 CHECKS = [
-    entry("C05", "collector",
+    entry("C05", "collector", crashcap=True,
           technique="property-based testing (rapid): generated schedules on the real collector under virtual time; reference rate/marker model over forwarded spans",
           quick=dict(checks=700, budget_s=70),
           thorough=dict(checks=8000, shards=16, budget_s=540),
